@@ -677,8 +677,10 @@ def relParts (b : URL) (r : Ref) : List Str :=
   else [] :: (b.parts.drop 1).dropLast ++ splitSlash r.path
 
 /-- the query `navigate` hands to `from_parts` -/
-def relQuery (b : URL) (r : Ref) : QPairs :=
-  if r.path = [] then (if parseQsl (r.query.getD []) = [] then b.query else parseQsl (r.query.getD []))
+def relQuery (honour : Bool) (b : URL) (r : Ref) : QPairs :=
+  if r.path = [] then
+    (if parseQsl (r.query.getD []) = [] ∧ ¬ (honour = true ∧ r.query.isSome = true) then b.query
+     else parseQsl (r.query.getD []))
   else parseQsl (r.query.getD [])
 
 theorem ofRelRef_pathText (r : Ref) : (URL.ofRelRef r).pathText = r.path := by
@@ -690,26 +692,26 @@ theorem authorityText_ne_nil (u : URL) (h : u.host ≠ []) : u.authorityText ≠
   by_cases hv : u.v6 <;> simp [hv, h]
 
 /-- explicit form of `base.navigate(ref)` for a base with a host and a rooted path -/
-def relResult (b : URL) (r : Ref) : URL :=
-  { b with netlocSep := false, parts := resolvePathParts (relParts b r), query := relQuery b r,
-           fragment := r.fragment.getD [] }
+def relResult (honour : Bool) (b : URL) (r : Ref) : URL :=
+  { b with netlocSep := false, parts := resolvePathParts (relParts b r), query := relQuery honour b r,
+           hasQuery := false, fragment := r.fragment.getD [] }
 
-@[simp] theorem relResult_scheme (b : URL) (r : Ref) : (relResult b r).scheme = b.scheme := rfl
-@[simp] theorem relResult_host (b : URL) (r : Ref) : (relResult b r).host = b.host := rfl
-@[simp] theorem relResult_parts (b : URL) (r : Ref) :
-    (relResult b r).parts = resolvePathParts (relParts b r) := rfl
-@[simp] theorem relResult_query (b : URL) (r : Ref) : (relResult b r).query = relQuery b r := rfl
-@[simp] theorem relResult_fragment (b : URL) (r : Ref) :
-    (relResult b r).fragment = r.fragment.getD [] := rfl
-@[simp] theorem relResult_authorityText (b : URL) (r : Ref) :
-    (relResult b r).authorityText = b.authorityText := rfl
+@[simp] theorem relResult_scheme (honour : Bool) (b : URL) (r : Ref) : (relResult honour b r).scheme = b.scheme := rfl
+@[simp] theorem relResult_host (honour : Bool) (b : URL) (r : Ref) : (relResult honour b r).host = b.host := rfl
+@[simp] theorem relResult_parts (honour : Bool) (b : URL) (r : Ref) :
+    (relResult honour b r).parts = resolvePathParts (relParts b r) := rfl
+@[simp] theorem relResult_query (honour : Bool) (b : URL) (r : Ref) : (relResult honour b r).query = relQuery honour b r := rfl
+@[simp] theorem relResult_fragment (honour : Bool) (b : URL) (r : Ref) :
+    (relResult honour b r).fragment = r.fragment.getD [] := rfl
+@[simp] theorem relResult_authorityText (honour : Bool) (b : URL) (r : Ref) :
+    (relResult honour b r).authorityText = b.authorityText := rfl
 
-theorem navigate_rel (b : URL) (r : Ref) (hb : AbsBase b) :
-    b.navigate (URL.ofRelRef r) = relResult b r := by
+theorem navigate_rel (honour : Bool) (b : URL) (r : Ref) (hb : AbsBase b) :
+    URL.navigateWith honour b (URL.ofRelRef r) = relResult honour b r := by
   unfold relResult
   obtain ⟨segs, hsegs⟩ := hb.rooted
   have hpt := ofRelRef_pathText r
-  unfold URL.navigate
+  unfold URL.navigateWith
   rw [hpt]
   have hnabs : ¬ ((URL.ofRelRef r).scheme ≠ [] ∧ (URL.ofRelRef r).host ≠ []) := by
     simp [URL.ofRelRef, URL.ofComponents]
@@ -752,7 +754,8 @@ theorem navigate_rel (b : URL) (r : Ref) (hb : AbsBase b) :
   have e6 : (URL.ofRelRef r).port = 0 := by simp [URL.ofRelRef, URL.ofComponents]
   have e7 : (URL.ofRelRef r).query = parseQsl (r.query.getD []) := by simp [URL.ofRelRef, URL.ofComponents]
   have e8 : (URL.ofRelRef r).fragment = r.fragment.getD [] := by simp [URL.ofRelRef, URL.ofComponents]
-  rw [e1, e2, e3, e4, e5, e6, e7, e8, hb.lowerScheme, hb.lowerHost]
+  have e9 : (URL.ofRelRef r).hasQuery = r.query.isSome := by simp [URL.ofRelRef, URL.ofComponents]
+  rw [e1, e2, e3, e4, e5, e6, e7, e8, e9, hb.lowerScheme, hb.lowerHost]
   cases b
   simp [relQuery]
 
@@ -920,10 +923,10 @@ theorem optQuery_roundtrip (o : Option Str) (h : CanonQ o) :
 
 /-- the query comparison: what `navigate` keeps = the RFC target's query, up to the empty marker,
     outside the defective region (empty path, present-but-empty query, base with a query) -/
-theorem relQuery_eq_rfc (b : URL) (base r : Ref) (hr : RelRef r)
+theorem relQuery_eq_rfc (honour : Bool) (b : URL) (base r : Ref) (hr : RelRef r)
     (hbq : base.query = optOfStr (queryText b.query)) (hcq : CanonQ r.query)
-    (hq : ¬ (r.path = [] ∧ r.query = some [] ∧ queryText b.query ≠ [])) :
-    dropEmpty (optOfStr (queryText (relQuery b r))) = dropEmpty (resolve base r).query := by
+    (hq : honour = true ∨ ¬ (r.path = [] ∧ r.query = some [] ∧ queryText b.query ≠ [])) :
+    dropEmpty (optOfStr (queryText (relQuery honour b r))) = dropEmpty (resolve base r).query := by
   rw [resolve_rel_query base r hr, hbq]
   unfold relQuery
   by_cases h1 : r.path = []
@@ -934,11 +937,16 @@ theorem relQuery_eq_rfc (b : URL) (base r : Ref) (hr : RelRef r)
       rw [hrq] at hcq
       by_cases hqe : q = []
       · subst hqe
-        have : queryText b.query = [] := by
-          by_cases hb : queryText b.query = []
-          · exact hb
-          · exact absurd ⟨h1, hrq, hb⟩ hq
-        simp [this, optOfStr, dropEmpty]
+        rcases hq with hh | hq
+        · subst hh
+          have e0 : queryText ([] : QPairs) = [] := rfl
+          simp [e0, parseQsl_nil, optOfStr, dropEmpty]
+        · have : queryText b.query = [] := by
+            by_cases hb : queryText b.query = []
+            · exact hb
+            · exact absurd ⟨h1, hrq, hb⟩ hq
+          have e0 : queryText ([] : QPairs) = [] := rfl
+          cases honour <;> simp [this, e0, parseQsl_nil, optOfStr, dropEmpty]
       · have hne := parseQsl_ne_nil q hcq hqe
         simp [hne, queryText_parseQsl q hcq, hqe, optOfStr, dropEmpty]
   · simp only [h1, if_false]
